@@ -497,3 +497,57 @@ PROPS["C12"] = {
     "not_covered": ["histories are not explored; the claim is per-operation preservation of the invariant and model",
                     "allocation failure (std::bad_alloc) paths"],
 }
+
+
+# ------------------------------------------------------------------ C02
+def simple_layer_cells(tier):
+    cells = []
+    cl = "loop-free / harness loops over N (complete)"
+    for perm in ("0", "1_0", "2_0_1", "0_2_1", "3_1_0_2"):
+        n = len(perm.split("_"))
+        for sty, m in (("float", 3), ("size_t", 1)):
+            d = {"DIMS_IN": n, "IN_SCALAR_T": sty, "DIMS_OUT": m, "OUT_SCALAR_T": "float", "UNIT_SHUFFLE": 1,
+                 "VERIF_PERM": "{" + perm.replace("_", ",") + "}", "VERIF_PERM_LIST": perm.replace("_", ",")}
+            un = "shuffle@perm=" + perm
+            cells.append(Cell("shuffle.shuffle.p%s.%s" % (perm, sty), un, "h_shuffle_shuffle", defines=d, enforce="shuffle_shuffle", unwind=6, closes_loops=cl, replay="simple_layers"))
+            cells.append(Cell("shuffle.at.p%s.%s.M%d" % (perm, sty, m), un, "h_shuffle_at", defines=d, enforce="shuffle_at", replace=["shuffle_shuffle"], unwind=6, closes_loops=cl, replay="simple_layers"))
+    for n, m in ((1, 1), (2, 2), (3, 3), (1, 3), (1, 2), (3, 1), (2, 3), (4, 2)):
+        for src, dst in (("float", "double"), ("double", "float")):
+            d = {"DIMS_IN": n, "IN_SCALAR_T": "float", "DIMS_OUT": m, "OUT_SCALAR_T": src, "CAST_T": dst, "UNIT_CAST": 1}
+            un = "cast@N=%d,M=%d" % (n, m)
+            cells.append(Cell("cast.at_helper.N%d.M%d.%s_to_%s" % (n, m, src, dst), un, "h_cast_at_helper", defines=d, enforce="cast_at_helper", unwind=6, closes_loops=cl, replay="simple_layers"))
+            cells.append(Cell("cast.at.N%d.M%d.%s_to_%s" % (n, m, src, dst), un, "h_cast_at", defines=d, enforce="cast_at", replace=["cast_at_helper"], unwind=6, closes_loops=cl, replay="simple_layers"))
+    for n, m in ((1, 1), (3, 3), (1, 3), (3, 1), (2, 4)):
+        for sty in ("float", "size_t"):
+            d = {"DIMS_IN": n, "IN_SCALAR_T": sty, "DIMS_OUT": m, "OUT_SCALAR_T": "double" if m == 4 else "float"}
+            cells.append(Cell("deref.at.N%d.M%d.%s" % (n, m, sty), "deref", "h_deref_at", defines=dict(d, UNIT_DEREF=1), enforce="deref_at", unwind=6, closes_loops=cl, replay="simple_layers"))
+            cells.append(Cell("constant.at.N%d.M%d.%s" % (n, m, sty), "constant", "h_constant_at", defines=dict(d, UNIT_CONSTANT=1), enforce="constant_at", unwind=6, closes_loops=cl, replay="simple_layers"))
+    for n in (1, 2, 3, 4):
+        for sty in ("float", "size_t", "int"):
+            d = {"DIMS_IN": n, "IN_SCALAR_T": sty, "DIMS_OUT": n, "OUT_SCALAR_T": sty, "IDENT_OUT_T": sty, "UNIT_IDENTITY": 1}
+            cells.append(Cell("identity.at.N%d.%s" % (n, sty), "identity", "h_identity_at", defines=d, enforce="identity_at", unwind=6,
+                              closes_loops="unwinding to the template constant N (complete)", replay="simple_layers"))
+    return cells
+
+
+def cells_C02(tier, consts):
+    cells = simple_layer_cells(tier)
+    # the other layers' lookups against the same abstract backend (N != M instances included)
+    cells += [c for c in cells_C10(tier, consts) if c.id.startswith("clamp.at.")]
+    cells += cells_C11(tier, consts)
+    cells += [c for c in cells_C04(tier, consts) if ".N1." in c.id or ".N3." in c.id]
+    cells += [c for c in morton_cells(tier, ["at"]) if c.id.endswith(".size_t.ndebug")]
+    cells += [c for c in strided_cells(tier, ["formula"]) if c.id.endswith(".size_t.ndebug")]
+    return cells
+
+
+PROPS["C02"] = {
+    "level_text": "every layer's lookup is proved, in isolation, against an ABSTRACT backend contract: it queries the backend (the stated number of times) at f(c), returns g(backend value), and writes nothing else -- shuffle (arg[k]=c[perm[k]]), covariant_cast (result[k]=(T)B(c)[k], k<M), dereference, constant, identity, clamp, backup, nearest neighbour, Morton, row-major; N and M are independent macros, so N != M is a first-class cell. Because the backend is abstract, what a layer does cannot depend on which layers lie beneath it",
+    "level_note": "the composition step (structural induction over the stack) is a two-line meta-argument, not checked by CBMC; braced-init overload resolution of covfie::array (broadcast for one initialiser) is modelled by rule R8; field_view's variadic at() is not extracted; linear is C03, affine is C09",
+    "design_ref": "DESIGN.md section 5 (C02)",
+    "cells": cells_C02, "consts": True,
+    "explanation": "modular verification of each layer against an abstract backend",
+    "trusted_base": ["abstract backend stub stubs/backend.h", "rule R8: pack expansion and covfie::array braced-init overload resolution"],
+    "assumptions": ["stack = structural induction over layers (meta-lemma, unchecked)"],
+    "not_covered": ["field_view::at variadic/vector overloads", "linear (C03) and affine (C09) layers are decided under their own properties"],
+}
